@@ -89,7 +89,8 @@ def check(ctx):
     ctx.require_instances("R-C10.1", 30)
 
     # ---- R-C10.2 ---------------------------------------------------------------
-    err = T.dfa(lambda o: (o["kind"] == "regex" and o["action"] == "ERROR") or o["kind"] == "nomatch")
+    # reported as ONE error by an ERROR rule that consumes the malformed literal - not as an illegal first character followed by the rest split into other tokens
+    err = T.dfa(lambda o: o["kind"] == "regex" and o["action"] == "ERROR")
     for what, lang in LM.MALFORMED.items():
         w = R.find_in_a_not_b(R.language_dfa(a, lang), err)
         ok = w is None
